@@ -22,7 +22,13 @@ A fourth group ("seg") hands the hostile stream out in two or three recv chunks 
 before the body is there, and the rest arrives in a later recv with sibling traffic in between.  A fifth group ("big")
 sends messages whose DECLARED length is 65523 / 65524 / 65535 (and values around the recv sizes 2048 / 8192) with all of
 their bytes: every catalogue instance zero-extended to that length, unknown types, undecodable bodies and requests the
-switch refuses quoting them (an error reply that quotes L bytes is 12 + L bytes long).
+switch refuses quoting them (an error reply that quotes L bytes is 12 + L bytes long).  A sixth group ("flood") is a
+sustained burst: N minimal units of one kind (unknown type, wrong fixed length, echo / barrier requests, barrier replies;
+N = 1 .. 102400 around the powers of two, the recv sizes and the 64 KiB of a pipe) on one, two or three of the
+connections at once, all readable at once or one chunk per select round, the peer reading the replies, reading 512
+bytes per send, or not reading at all - the switch's loop with the library's REAL wake-up pinger (make_pinger ->
+PipePinger) on a modelled pipe (PipeOS: capacity, blocking / non-blocking descriptors, a blocking call that only the
+calling thread could satisfy = the loop's thread is stuck for good), benign siblings getting traffic during the burst.
 
 Oracle (DESIGN.md C10): (1) every step into the generator returns within a line budget; (2) the
 generator stays alive and keeps selecting on the siblings; (3) each sibling is delivered exactly its
@@ -30,8 +36,10 @@ messages, in order, and stays open; (4) on the hostile connection, against the r
 structural validator of mc/refs/ofwire_c10.py: valid messages are delivered unchanged unless the
 connection was closed because of an earlier bad unit, malformed units are answered with an error and
 skipped or cost the connection, and no delivered message depends on bytes beyond its declared length
-(decided by re-running the case with every byte after the unit inverted); (5) nothing is delivered
-from a connection after it was closed.
+(decided by re-running the case with every byte after the unit inverted), and a connection the receiver has given up
+is closed where the PEER can tell - at quiescence its socket has been shut down or closed unless bytes are still queued
+for it (a close that stays a flag inside the receiver is no close: close-requested-not-performed); (5) nothing is
+delivered from a connection after it was closed.
 """
 import fnmatch, io, struct, sys, traceback
 
@@ -428,6 +436,11 @@ class CtlWorld (World):
   def is_closed (self, i):
     return bool(self.socks[i].closed or (i < len(self.cons) and self.cons[i].disconnected))
 
+  def close_state (self, i):
+    """(the receiver has given the connection up, the peer can tell: the socket was shut down or closed, bytes still queued for it)"""
+    s = self.socks[i]
+    return (bool(i < len(self.cons) and self.cons[i].disconnected), bool(s.closed or s.shut or s.rd_shut), 0)
+
   def selecting (self):
     """Indices of connections in the current Select's read list (+ 'L' for the listener)."""
     out = []
@@ -514,6 +527,11 @@ class SwWorld (World):
   def is_closed (self, i):
     w = self.workers[i]
     return bool(w.closed or w._shutdown_send or self.socks[i].closed)
+
+  def close_state (self, i):
+    """(the receiver has given the connection up, the peer can tell: the socket was shut down or closed, bytes still queued for it)"""
+    w = self.workers[i]; s = self.socks[i]
+    return (bool(w.closed or w._shutdown_send), bool(w.closed or s.closed or s.shut), len(w.send_buf))
 
   def selecting (self):
     out = []
@@ -712,6 +730,8 @@ def execute (case, insts, alt_from=None):
       w.completed = w.step([])              # one idle wake-up: the loop must yield a Select again
     w.final_sel = w.selecting() if w.sel is not None and not w.dead else []
     w.closed = [w.is_closed(i) for i in range(3)]
+    w.close_st = [w.close_state(i) for i in range(3)]
+    w.peer_gone = ["shutdown" in w.socks[i].faults for i in range(3)]
     w.errs = [w.errors_sent(i) for i in range(3)]
   finally:
     w.finish()
@@ -722,6 +742,22 @@ def execute (case, insts, alt_from=None):
 
 def tname (t):
   return W.TYPE_NAMES[t] if t < len(W.TYPE_NAMES) else "unknown-type"
+
+
+def close_verdict (v, side, w, i):
+  """'... or that one connection is closed': a receiver that has decided to give a connection up (and therefore answers
+  and delivers nothing from it any more) has to carry the close out where the peer can tell - the socket shut down or
+  closed - once nothing is left to flush.  A close that stays a flag inside the receiver leaves a connection that is open
+  for the peer, selected on and read from for ever, and silent: the bytes were neither answered, nor skipped, nor was the
+  connection closed.  (No verdict when the scripted peer has already reset the connection.)"""
+  given_up, visible, queued = w.close_st[i]
+  if given_up and not visible and not queued and not w.peer_gone[i]:
+    v("4", "close-requested-not-performed", [],
+      "the %s gave connection %d up (%s) but at quiescence its socket was neither shut down nor closed and nothing is queued "
+      "for it: for the peer the connection is open, the loop keeps reading from it into a buffer it no longer works off, and "
+      "nothing it sends is answered any more"
+      % ("switch" if side == "sw" else "controller", i,
+         "OFConnection.close() -> io_worker.shutdown(): only the _shutdown_send flag is set" if side == "sw" else "Connection.disconnected is set"))
 
 
 def judge (case, insts, w, differential=True):
@@ -802,6 +838,7 @@ def judge (case, insts, w, differential=True):
         v("3", "sibling-echo-unanswered", [mc, fc], "sibling %d: echo request xid %#x was not answered" % (i, xid_of(p.data)))
   # (4)/(5) hostile connection
   D = w.deliv[h]; E = w.errs[h]; closed = w.closed[h]
+  close_verdict(v, side, w, h)
   acted = {}                     # unit index -> set of 'd' (delivered) 'x' (inexact) 'e' (error)
   inexact = []
   j = 0
@@ -1271,6 +1308,8 @@ def flood_execute (case):
     w.completed = _flood_drive(case, w, hostile, benign)
     w.final_sel = w.selecting() if w.sel is not None and not w.dead else []
     w.closed = [w.is_closed(i) for i in range(nconn)]
+    w.close_st = [w.close_state(i) for i in range(nconn)]
+    w.peer_gone = [False] * nconn
     w.blocked = w.fos.blocked if w.fos is not None else None
     w.max_backlog = w.fos.max_backlog if w.fos is not None else 0
   finally:
@@ -1389,6 +1428,7 @@ def flood_judge (case, w):
     closed = w.closed[i]
     if any(d[2] for d in D):
       v("5", "delivered-after-close", [mc, fc], "a message was delivered from flooding connection %d after it had been closed" % i)
+    close_verdict(v, side, w, i)
     units = [base + k for k in range(n)]
     dx = [d[1] for d in D]
     # what the switch / controller wrote (a stalled peer: what it queued for writing)
@@ -1605,15 +1645,26 @@ def run (cfg):
               "request of unknown type with an L-byte body, a PACKET_OUT for an unknown buffer id filled by one vendor action "
               "(L %% 8 == 0), L in %r (quick: these for every instance; L in %r only for ECHO_REQUEST, VENDOR, PACKET_OUT, "
               "BARRIER_* and the two refused requests), unmodified and with type 22/0xff, version 2, actions_len / action len "
-              "0 / 0xffff, in one push (the socket hands out recv-size pieces: 2048 controller, 8192 switch) or separate pushes%s. distinct = "
+              "0 / 0xffff, in one push (the socket hands out recv-size pieces: 2048 controller, 8192 switch) or separate pushes; plus floods: "
+              "N units of one kind (switch: 8-byte unknown type, 12-byte GET_CONFIG_REQUEST, 8-byte ECHO_REQUEST, BARRIER_REQUEST; controller: "
+              "ECHO_REQUEST, BARRIER_REPLY) followed by one valid echo request on each of 1 / 2 / 3 connections of %d (the others benign, "
+              "getting their next valid message in turns 1, 2, 3, 4, 6, 8, 12, 16, ... of the burst), N in %r (switch side also, per number "
+              "of flooding connections, %r), all readable at once or %s more bytes per select round, the peer reading the replies / "
+              "taking 512 bytes per send / not reading (N <= 8192), the switch's loop on the library's real PipePinger over a modelled "
+              "pipe of %d bytes: every unit owed its reply (error quoting it / echo reply / barrier reply) exactly once and in order, "
+              "every valid unit delivered in order, no blocking call on the wake-up pipe, step budget linear in the bytes readable%s. distinct = "
               "(side, message class, field class, position, chunking, boundary classes, deliveries/errors/closed/logged exceptions, verdict)"
               % (len(insts), VERSIONS, EMB_VALUES, R.BIG_EDGE, R.BIG_NEAR + R.BIG_RECV,
+                 3, FLOOD_N, FLOOD_BIG, "/".join(m.split(":")[1] for m in FLOOD_MODES if ":" in m), PIPE_CAP,
                  " (quick tier reductions: the full type sweep 0..255 only at 'between' in one recv, type values 0..23,0x7f,0x80,0xfe,0xff at every "
                  "position in one recv (handshake group: these type values and lengths < 10 or within 8 of the valid one); position 'before' only in one recv; truncation+EOF as the first bytes only for cut points <= 12; "
-                 "the 1068-byte desc stats reply only with lengths / cut points within 24 bytes of its start or 16 of its end)" if quick else ""))
+                 "the 1068-byte desc stats reply only with lengths / cut points within 24 bytes of its start or 16 of its end; floods: 1 or 2 flooding "
+                 "connections, N in {1, 1023, 1024, 1025} for every kind, 8192 for unknown-type / echo-request, one long burst per number of flooding "
+                 "connections (81920 / 73728 unknown-type units, all readable at once), chunked arrival 1000 / 8192 and slow / stalled peers at N = 1, 1025)" if quick else ""))
   rep.bound = dict(connections=3, hostile=1, corruptions_per_stream=1, line_budget_per_step=BUDGET, select_rounds_per_step=MAXIT,
                    recv_boundaries_inside_messages=2, max_declared_length=65535, line_budget_per_step_64k_messages=BUDGET_BIG,
-                   select_rounds_per_step_64k_messages=MAXIT_BIG)
+                   select_rounds_per_step_64k_messages=MAXIT_BIG, flood_units_per_connection=max(max(x) for x in FLOOD_BIG.values()),
+                   flooding_connections=3, wakeup_pipe_capacity=PIPE_CAP, flood_line_budget_per_step="%d + 40 per readable byte" % BUDGET)
   rep.assumptions = ["select is answered honestly: readable = scripted socket with pending bytes/EOF or shut down for reading, sockets "
                      "always writable; a select set containing a closed socket (fileno() -1) raises ValueError = the loop is dead",
                      "every sibling echo request must be answered with the same xid and body",
@@ -1623,8 +1674,15 @@ def run (cfg):
                      "~2.5e5 lines of linear work) and %d select rounds" % (BUDGET_BIG, MAXIT_BIG),
                      "zero-extended PACKET_IN instances carry total_len = length of the data (total_len below the data length is "
                      "not a valid PACKET_IN); a foreign-version HELLO delivered without its body counts as that HELLO",
-                     "switch side 'closed' means worker.closed or shutdown requested (OFConnection.close only requests shutdown)",
-                     "well-formed messages of the wrong direction and HELLO with a foreign version are unconstrained on the hostile connection"]
+                     "switch side: a connection counts as given up (nothing may be delivered from it any more, later units are excused) once "
+                     "worker.closed or shutdown was requested (OFConnection.close only requests it); whether the close was carried out is a "
+                     "clause of its own: at quiescence the socket of a connection that was given up must have been shut down or closed "
+                     "unless bytes are still queued for it or the scripted peer has reset the connection",
+                     "well-formed messages of the wrong direction and HELLO with a foreign version are unconstrained on the hostile connection",
+                     "floods: the wake-up pipe is a byte counter of %d bytes (writes of <= %d bytes are all-or-nothing; a descriptor is blocking "
+                     "unless os.set_blocking(fd, False) was called; a blocking write to a full pipe / read of an empty one never returns because "
+                     "the loop's thread is the only reader and writer); a stalled peer (send -> EAGAIN, never writable) excuses the replies from "
+                     "being written but not from being queued" % (PIPE_CAP, PIPE_BUF)]
   return rep
 
 
@@ -1657,6 +1715,7 @@ def replay (cfg, data):
   lines.append("hostile deliveries (%d): %r%s" % (len(dl), dl[:12], " ..." if len(dl) > 12 else ""))
   lines.append("errors sent on hostile: %r" % [(hex(x), tc) for x, d, tc in w.errs[HOSTILE]])
   lines.append("closed: %r  loop: %s  tripped: %s  selecting: %r" % (w.closed, w.dead or "alive", w.tripped, w.final_sel))
+  lines.append("hostile connection: given up: %r  socket shut down or closed: %r  bytes still queued for it: %d" % w.close_st[HOSTILE])
   lines.append("sibling deliveries: %r of %r" % ([len(w.deliv[0]), len(w.deliv[2])], [len(w.pushed[0]), len(w.pushed[2])]))
   lines.append("exceptions logged by pox: %r" % (sorted(set(w.logged()), key=repr),))
   for key, text in bad:
